@@ -296,6 +296,26 @@ impl Property for C14 {
                 emit(json!({"kind": "lex-table"}));
             })
             .exhaustive(),
+            // whole programs and real files: the same differential on raw text
+            Family::new("programs-raw", ctx.tier.pick(100, 2000), |_c, rng, emit| {
+                for _ in 0..50 {
+                    let text = match rng.below(4) {
+                        0 => crate::gen::sem::program(rng, crate::gen::sem::Opts::Clean).files[0].1.clone(),
+                        _ => crate::gen::gram::program(rng, crate::gen::gram::GramOpts { budget: 80, ..Default::default() }).1,
+                    };
+                    if !emit(json!({"kind": "lex-raw", "text": text})) {
+                        return;
+                    }
+                }
+            }),
+            Family::new("files-raw", 1, |_c, _r, emit| {
+                for (_, text) in crate::gen::corpus::llvm().iter().chain(crate::gen::corpus::seeds().iter()) {
+                    if !emit(json!({"kind": "lex-raw", "text": text})) {
+                        return;
+                    }
+                }
+            })
+            .exhaustive(),
             Family::new("sequences", ctx.tier.pick(1000, 40000), move |_c, rng, emit| {
                 for _ in 0..500 {
                     if !emit(gen_case(rng, &known)) {
@@ -309,7 +329,8 @@ impl Property for C14 {
         if case["kind"] == "lex-raw" {
             let Some(text) = case["text"].as_str() else { return Verdict::Skip("malformed-case") };
             return match differential_raw(text) {
-                Ok(()) => Verdict::pass(true),
+                Ok(true) => Verdict::Pass { nontrivial: true, labels: vec!["raw-asserted"] },
+                Ok(false) => Verdict::Pass { nontrivial: false, labels: vec!["raw-not-asserted (reference rejects or is silent)"] },
                 Err(f) => Verdict::Fail(f),
             };
         }
@@ -388,10 +409,10 @@ impl Property for C14 {
 
 /// Differential on raw text (fuzz target): asserted only where the reference lexer accepts the
 /// whole text and no word falls into the corner where the reference is ambiguous.
-pub fn differential_raw(text: &str) -> Result<(), Failure> {
+pub fn differential_raw(text: &str) -> Result<bool, Failure> {
     let r = ref_lex(text);
     if r.iter().any(|t| matches!(t.kind, RefKind::Invalid(_))) {
-        return Ok(());
+        return Ok(false);
     }
     // digit-leading words that are not integers: LLVM's own number/identifier heuristic applies
     // when the first letter is x, b or a hex digit; the reference says nothing about it
@@ -399,16 +420,13 @@ pub fn differential_raw(text: &str) -> Result<(), Failure> {
         let w = &text[t.start..t.end];
         let b = w.as_bytes();
         if b[0].is_ascii_digit() && t.kind == RefKind::Id && number_like_corner(w) {
-            return Ok(());
+            return Ok(false);
         }
         if matches!(t.kind, RefKind::Int | RefKind::BinInt) {
             // out-of-range literals are the implementation's right to reject
             if crate::props::c14::out_of_range(w) {
-                return Ok(());
+                return Ok(false);
             }
-        }
-        if matches!(t.kind, RefKind::Directive(_)) {
-            return Ok(()); // raw directives are C15's business
         }
     }
     let (got, errors) = impl_lex(text);
@@ -431,13 +449,14 @@ pub fn differential_raw(text: &str) -> Result<(), Failure> {
             RefKind::Var => g.0 == TokenKind::VarName,
             RefKind::Keyword(_) | RefKind::Punct(_) => g.0 != TokenKind::Id && g.0 != TokenKind::Error,
             RefKind::Bang(_) => g.0.is_bang_operator() || g.0.is_cond_operator(),
+            RefKind::Directive(_) => g.0 != TokenKind::Id && g.0 != TokenKind::Error && !g.0.is_trivia(),
             _ => true,
         };
         if !ok {
             return Err(Failure::plain("C14.raw-kind", format!("token {:?} at {}..{} for reference {:?} on {text:?}", g.0, g.1, g.2, t.kind)));
         }
     }
-    Ok(())
+    Ok(true)
 }
 
 pub fn out_of_range(w: &str) -> bool {
